@@ -1,7 +1,7 @@
 //! fakesat — the external SAT solver seen from the other side of the pipe (C06, C15, C16, C17).
 //! A strict DIMACS checker + solver (CaDiCaL through crustabri's own wrapper) that logs what it received and can
 //! be told to misbehave.  usage: fakesat [--log FILE] [--mode MODE]
-//!   modes: ok | pad:<bytes> | earlypad:<bytes> | noread:<bytes> | interleave:<bytes> | split:<k> | early | silent | truncated | garbage | nomodel | crash | vnozero
+//!   modes: ok | pad:<bytes> | earlypad:<bytes> | noread:<bytes> | interleave:<bytes> | lategarbage:<bytes> | split:<k> | early | silent | truncated | garbage | nomodel | crash | vnozero
 use crustabri::sat::{CadicalSolver, Literal, SatSolver, SolvingResult};
 use std::io::{Read, Write};
 
@@ -203,6 +203,16 @@ fn main() {
             _ => reply.push_str("s UNSATISFIABLE\n"),
         },
         SolvingResult::Unknown => reply.push_str("s UNKNOWN\n"),
+    }
+    if let Some(n) = mode.strip_prefix("lategarbage:") {
+        // a complete answer, N bytes of statistics, then a line that is not DIMACS (a solver crashing while it prints its statistics)
+        let n: usize = n.parse().unwrap();
+        let mut w = 0;
+        while w < n {
+            reply.push_str(padline);
+            w += padline.len();
+        }
+        reply.push_str("@@ not a dimacs line @@\n");
     }
     let _ = out.write_all(reply.as_bytes());
     let _ = out.flush();
